@@ -784,11 +784,18 @@ class List(list, base.Symbolic, pg_typing.CustomTyping):
     if self._value_spec and self._value_spec.min_size > 0:
       raise ValueError(
           f'List cannot be cleared: min size is {self._value_spec.min_size}.')
-    # Detach old values from object tree.
-    for old_value in self.sym_values():
+    updates = []
+    for i, old_value in self.sym_items():
+      # Detach old values from object tree.
       if isinstance(old_value, base.TopologyAware):
         old_value.sym_setparent(None)
+      updates.append(base.FieldUpdate(
+          self.sym_path + i, self,
+          self._value_spec.element if self._value_spec else None,
+          old_value, pg_typing.MISSING_VALUE))
     super().clear()
+    if flags.is_change_notification_enabled() and updates:
+      self._notify_field_updates(updates)
 
   def sort(self, *, key=None, reverse=False) -> None:
     """Sorts the items of the list in place.."""
